@@ -4,12 +4,12 @@ use super::common::*;
 use super::SimCheck;
 use crate::cfg::{host_of, Cfg, PoolCfg};
 use crate::explore::{Limits, Violation};
-use crate::mockpg::{Accept, Fault, FaultKind, Matcher, Rec};
+use crate::mockpg::{Accept, Fault, FaultKind, Matcher, Rec, StartupMode};
 use crate::wire;
 use crate::world::{Actor, Cond, Opts, Outcome, Scenario, Step};
 use std::sync::Arc;
 
-pub const EVENTS: &[&str] = &["none", "refuse", "crash", "up", "hcfail", "hchang", "hcslow", "break", "hang", "ban", "unban", "adv-ban", "adv-admin-ban"];
+pub const EVENTS: &[&str] = &["none", "refuse", "crash", "up", "hcfail", "hchang", "hcslow", "break", "hang", "ban", "unban", "adv-ban", "adv-admin-ban", "stop", "blackhole"];
 pub const ROLES: &[&str] = &["any", "replica", "primary"];
 
 fn addr_of(i: usize) -> String {
@@ -43,6 +43,37 @@ fn event_steps(ev: &str, target: usize) -> Vec<Step> {
                 Step::KillServerConns(addr),
             ]
         }
+        "stop" => {
+            // the server process is stopped: established connections are gone, new ones are accepted by
+            // the kernel and never answered until the server runs again
+            let a = addr.clone();
+            let h = host.clone();
+            vec![
+                Step::Call(
+                    format!("{} stops answering (accepts, never replies to startup)", addr),
+                    Arc::new(move |n| {
+                        n.servers.get_mut(&a).unwrap().startup = StartupMode::HangAfterAccept;
+                        n.push(Rec::Note { msg: format!("CRASH {}", h) });
+                    }),
+                ),
+                Step::KillServerConns(addr),
+            ]
+        }
+        "blackhole" => {
+            // packets to the host are dropped: connect never completes
+            let a = addr.clone();
+            let h = host.clone();
+            vec![
+                Step::Call(
+                    format!("{} is unreachable (connect hangs)", addr),
+                    Arc::new(move |n| {
+                        n.servers.get_mut(&a).unwrap().accept = Accept::Blackhole;
+                        n.push(Rec::Note { msg: format!("CRASH {}", h) });
+                    }),
+                ),
+                Step::KillServerConns(addr),
+            ]
+        }
         "up" => {
             let a = addr.clone();
             vec![Step::Call(
@@ -50,6 +81,7 @@ fn event_steps(ev: &str, target: usize) -> Vec<Step> {
                 Arc::new(move |n| {
                     let s = n.servers.get_mut(&a).unwrap();
                     s.accept = Accept::Up;
+                    s.startup = StartupMode::Normal;
                     s.faults.clear();
                     let h = a.split(':').next().unwrap().to_string();
                     n.push(Rec::Note { msg: format!("RECOVER {}", h) });
@@ -99,7 +131,9 @@ pub fn scenario(replicas: usize, primary: bool, lb: &str, history: &[(&str, usiz
     for i in 0..replicas {
         steps.extend(event_steps("up", i));
     }
-    steps.push(Step::Advance(61_000));
+    // bans expire; connects that were swallowed by a black hole have failed by then (127 s)
+    let blackholed = history.iter().any(|(e, _, _)| *e == "blackhole");
+    steps.push(Step::Advance(if blackholed { 130_000 } else { 61_000 }));
     for (k, role) in ["replica", "any", "replica"].iter().enumerate() {
         if *role == "replica" && replicas == 0 {
             continue;
@@ -226,7 +260,7 @@ pub fn oracle(sc: &Scenario, out: &Outcome) -> Vec<Violation> {
             candidates += 1;
             let host = addr.split(':').next().unwrap().to_string();
             let faults: Vec<String> = be["faults"].as_array().unwrap().iter().map(|f| f.as_str().unwrap_or("").to_string()).collect();
-            let healthy = be["accept"] == "Up" && faults.is_empty() && !crashed.contains(&host);
+            let healthy = be["accept"] == "Up" && be["startup"] == "Normal" && faults.is_empty() && !crashed.contains(&host);
             // a server that will break while executing (or whose pooled connections are dead) may fail this one transaction
             let fragile = faults.iter().any(|f| f.contains("ClientOriginated")) || crashed.contains(&host);
             if !banned.contains(&host) {
@@ -247,6 +281,7 @@ pub fn oracle(sc: &Scenario, out: &Outcome) -> Vec<Violation> {
                         let addr = rest.split_whitespace().next().unwrap_or("");
                         failing.push(addr.split(':').next().unwrap_or("").to_string());
                     } else if msg.starts_with("conn ") && (msg.contains("hangs") || msg.contains("delays")) {
+                        // (includes "conn N startup hangs")
                         if let Some(id) = msg.split_whitespace().nth(1).and_then(|x| x.parse::<usize>().ok()) {
                             failing.push(conn_server(log, id).split(':').next().unwrap_or("").to_string());
                         }
@@ -310,7 +345,10 @@ pub fn oracle(sc: &Scenario, out: &Outcome) -> Vec<Violation> {
         if (healthy_unbanned > 0 && fragile_unbanned == 0) || is_final {
             // service must continue, and failures of other candidates stay invisible
             if row.is_none() {
-                let single_restarted = candidates == 1 && crashed.len() == 1;
+                // the recorded finding: the only candidate's pooled connections died with the server and the
+                // health check on one of them fails; not when a connect attempt is (or was) stuck
+                let stuck_connect = log.iter().take_while(|e| e.seq < end_seq).any(|e| matches!(&e.rec, Rec::Note { msg } if msg.starts_with("connect ") && msg.contains("hangs") || msg.contains("startup hangs")));
+                let single_restarted = candidates == 1 && crashed.len() == 1 && !stuck_connect;
                 vs.push(v(
                     "C07.refused",
                     if single_restarted { "C07.refused:single-candidate-after-restart".to_string() } else { format!("C07.refused:{}:{}", if is_final { "final" } else { "mid" }, ctx) },
@@ -406,7 +444,7 @@ pub fn build(tier: &str) -> SimCheck {
         oracle: Box::new(oracle),
         bound: 1,
         limits: Limits { max_wall_s: if thorough { 2400.0 } else { 55.0 }, ..Default::default() },
-        rule: "scenario = shard shape (replicas 1..3 with/without primary, primary only) x load-balancing mode x history of depth 1-2 (thorough 3) over 12 events on a replica (down, recover, health check failing / hanging / answering late after an idle gap, breaking or hanging mid-statement, admin BAN / UNBAN, ban expiry, admin-ban expiry), each followed by a transaction with role any/replica/primary between two pooler-state probes, then recovery and final transactions; every candidate order (enumerated shuffle) with 1 deviation".into(),
+        rule: "scenario = shard shape (replicas 1..3 with/without primary, primary only) x load-balancing mode x history of depth 1-2 (thorough 3) over 15 events on a replica (down, crashed, stopped = accepts but never answers the startup until it runs again, black-holed = connect swallowed until the kernel's 127 s timeout, recover, health check failing / hanging / answering late after an idle gap, breaking or hanging mid-statement, admin BAN / UNBAN, ban expiry, admin-ban expiry), each followed by a transaction with role any/replica/primary between two pooler-state probes, then recovery and final transactions; every candidate order (enumerated shuffle) with 1 deviation".into(),
         assumptions: vec![
             "ban membership is read from the pooler (get_bans) and cross-checked against observed failures; expiry is computed from the virtual wall clock".into(),
             "a candidate with any pending injected fault counts as unhealthy when deciding whether service was owed".into(),
